@@ -232,6 +232,14 @@ def confirm_main(binary, prop, v, idx):
     scanned = terminal or bool(globs)
     if inp.get('both_flags'):
         ok = r['code'] != 0 and r['diags'] is None
+        if ok:
+            # the two flags are global: they may also sit on opposite sides of the sub-command
+            for argv in (['-e', 'keep-sorted', 'list', '-d', 'line-count', 'a.py'], ['-d', 'line-count', 'list', 'a.py', '-e', 'keep-sorted']):
+                r = run_scan(binary, files, [], env_extra=env, extra_args=argv)
+                if r['code'] == 0:
+                    ok = False
+                    extra, globs = argv, []
+                    break
     elif inp.get('blocks_empty'):
         # an empty selection: `list` prints an empty JSON object, validation prints nothing; both exit 0
         ok = r['code'] == 0 and (r['stdout'].strip() == '{}' if inp.get('is_list') else r['diags'] is None)
